@@ -53,6 +53,7 @@ func runC09(t *testing.T, e *worlds.Env, tier string) (bool, any) {
 	var slowFor time.Duration
 	slowAll, slowDgrams := false, 0
 	var woundDown func() bool
+	var urec *worlds.UDPRec
 	e.Run(t, func() func() bool {
 		yieldKnob(e)
 		e.S.YieldOn = nil // all yield sites: the close/arrival windows are the point of this world
@@ -76,7 +77,6 @@ func runC09(t *testing.T, e *worlds.Env, tier string) (bool, any) {
 		sample.Faults = faults
 		useEcho = tp.Prob(1, 4, "echo")
 		var h layer4.NextHandler
-		var urec *worlds.UDPRec
 		if useEcho {
 			h = &l4echo.Handler{}
 			sample.Handler = "echo"
@@ -487,6 +487,14 @@ func runC09(t *testing.T, e *worlds.Env, tier string) (bool, any) {
 				}
 				if hasMatcher {
 					continue // an association that fails matching drops what it prefetched: not attributable per datagram
+				}
+				// the client's only association reads until end-of-stream, nobody holds the loop up,
+				// and it went on reading for more than a second after this datagram had arrived: it
+				// was queued there (anything else would have started a second association) and the
+				// handler's reads must have produced it
+				if len(as) == 1 && urec != nil && urec.MaxReads == 0 && slowFor == 0 && as[0].StartStep <= d.Step && as[0].EOFAt > d.At+time.Second && len(as[0].PostClose) == 0 {
+					e.S.Fail("C09/dropped-while-reading", "udprec", "datagram #%d of client %s (%d bytes) arrived on %s at %v; the client's only association (%s) kept reading until %v, yet never received it", i, c, len(d.Data), sockName, d.At, as[0].G, as[0].EOFAt)
+					return
 				}
 				// excusable: some association of this client was still alive when the datagram
 				// arrived (or started later): it may have been queued there and dropped when
